@@ -266,3 +266,23 @@ pub fn sdd_tt_mapped(p: SddPtr, k: usize, idx: &dyn Fn(usize) -> Option<usize>) 
         SddPtr::Compl(or) => tt::not(sdd_tt_mapped(SddPtr::Reg(or), k, idx)?, k),
     })
 }
+
+/// value of an SDD under a complete assignment (bit v of `a` = value of label v), by walking
+/// the stored elements: the first element whose prime holds decides through its sub
+pub fn sdd_eval(p: SddPtr, a: u64) -> bool {
+    match p {
+        SddPtr::PtrTrue => true,
+        SddPtr::PtrFalse => false,
+        SddPtr::Var(l, pol) => ((a >> l.value_usize()) & 1 == 1) == pol,
+        SddPtr::BDD(b) => {
+            if (a >> b.label().value_usize()) & 1 == 1 {
+                sdd_eval(b.high(), a)
+            } else {
+                sdd_eval(b.low(), a)
+            }
+        }
+        SddPtr::ComplBDD(b) => !sdd_eval(SddPtr::BDD(b), a),
+        SddPtr::Reg(or) => or.iter().any(|e| sdd_eval(e.prime, a) && sdd_eval(e.sub, a)),
+        SddPtr::Compl(or) => !sdd_eval(SddPtr::Reg(or), a),
+    }
+}
